@@ -43,8 +43,10 @@ TRUSTED = [
     "float32 storage of decoded onsets/durations (on/time_div) compared to the exact rational with rtol 1e-6",
 ]
 PARTIAL = [
-    "decode_encode_partial: proved for the per-row run-length decoder the column-wise decoder is compared against; "
-    "the column-wise dict bookkeeping of pianoroll_to_notearray itself is covered by correspondence only",
+    "cell_iff / cell_binary / idx_designate / decode_encode assume MIDI velocities > 0 (a velocity-0 note yields an explicit zero cell; cell_value covers that case)",
+    "decode_encode: stated for the options under which times can be read back (RoundTripOpts: no onset mode / separation / margins / end_time, remove_silence=False, not binary) and onsets >= 0 on the grid; the decoder itself (decode_spec) is proved for every integer matrix",
+    "float effects (binary64 products before np.round, float32 storage of decoded times, float division of the normalised pitch-class roll) are outside the exact-rational model: checked per case / compared with tolerance, not proved",
+    "scipy sparse assembly, slicing and toarray are trusted primitives (Roll.cell is their assumed meaning); compared cell by cell",
 ]
 RULE = ("random structured note arrays (score units beat/quarter/div, performance units sec/tick, f4/i4 columns in shuffled dtype order, "
         "with/without velocity and channel columns, rows in random order, pitch pools forcing collisions, zero durations, drum channel 9, "
